@@ -117,7 +117,7 @@ func (eng *Engine) verifyFunc(fn *ssa.Function, props []string) (fc *FnCtx, err 
 		}
 		// trusted axioms (facts about dependencies' globals, e.g. io.EOF != nil) hold in the entry state
 		for _, ax := range eng.contracts.Axioms {
-			if !axiomRelevant(ax, fn) {
+			if !axiomRelevant(ax, fn) || !axiomInScope(ax, props) { // axiomInScope: ext_lemma_axioms.go
 				continue
 			}
 			aenv := &SpecEnv{fc: fc, vars: map[string]SV{}, cur: st, old: st, pkg: eng.pkgOfSpec(&FuncSpec{Pkg: ax.Pkg})}
@@ -157,6 +157,9 @@ func (eng *Engine) verifyFunc(fn *ssa.Function, props []string) (fc *FnCtx, err 
 				}
 			}
 		}
+		if spec != nil && pass == 1 {
+			fr.checkLineHintAnchors()
+		}
 		if spec != nil {
 			for i, h := range spec.Hints {
 				if e := fr.hintErr[i]; e != nil && !fr.hintOK[i] {
@@ -180,8 +183,14 @@ func (fc *FnCtx) preamble() string {
 	for _, k := range keys {
 		fmt.Fprintf(&b, "(declare-const %s %s)\n", compInit(k), fc.comps[k])
 	}
+	// all declarations first (an axiom of one uninterpreted function may mention another one, or a string constant)
 	for _, u := range fc.ufList {
 		fmt.Fprintf(&b, "(declare-fun %s %s)\n", u, fc.ufs[u])
+	}
+	for _, d := range fc.tc.extraDecls {
+		b.WriteString(d + "\n")
+	}
+	for _, u := range fc.ufList {
 		if ax := fc.ufAxioms[u]; ax != "" {
 			b.WriteString(ax + "\n")
 		}
@@ -190,12 +199,10 @@ func (fc *FnCtx) preamble() string {
 			fmt.Fprintf(&b, "(assert (forall ((b (Array Int Int)) (o Int) (n Int)) (! (>= (%s b o n) 1) :pattern ((%s b o n)))))\n", u, u)
 		}
 	}
-	for _, d := range fc.tc.extraDecls {
-		b.WriteString(d + "\n")
-	}
 	if d := fc.tc.strDistinct(); d != "" {
 		b.WriteString(d + "\n")
 	}
+	b.WriteString(fc.algebraAxioms()) // ext_bytesalgebra.go: only when blen/sub/strseq are used
 	return b.String()
 }
 
@@ -230,6 +237,9 @@ func (eng *Engine) lemmaCtx(l *Lemma) (fc *FnCtx, err error) {
 			return nil, fmt.Errorf("contract-stale: lemma %s: %v", l.Name, e)
 		}
 		fc.assume("true", t)
+	}
+	if e := eng.assumeLemmaAxioms(fc, st, l); e != nil { // ext_lemma_axioms.go
+		return nil, fmt.Errorf("contract-stale: lemma %s: axiom: %v", l.Name, e)
 	}
 	cov := &Obligation{Name: "lemma:" + l.Name + "#cover", Kind: "cover", Func: "lemma:" + l.Name, Guard: "true", Cond: "false", Cover: true}
 	fc.script = append(fc.script, Item{ob: cov})
